@@ -115,12 +115,14 @@ func (r *Reader) makeBuffer() *types.PooledBuffer {
 		return &types.PooledBuffer{Bs: make([]byte, minBufSize)}
 	}
 	buf := r.bufPool.Get().([]byte)
+	verifSched("reader:buffer-taken")
 	return &types.PooledBuffer{
 		Bs: buf,
 		CloseFn: func() {
 			// Note we always return the whole allocated buf regardless of what Bs
 			// ended up being sliced to.
 			r.bufPool.Put(buf)
+			verifSched("reader:buffer-released")
 		},
 	}
 
